@@ -60,7 +60,6 @@ UNDETECTABLE = {
  "C05-1": "the change is in snap.isHitMultiple (repeated-vertex lookup), part of the ring assembly, which is outside the verified functions; the function it changes (isHitMultiple) was replaced by the repair of F4 (5f44606), so the patch no longer applies; before that repair it needed negative coordinates whose pixel centres do not survive the float round trip",
  "C05-2": "the change is in snap.splitRing (orientation of unsplit rings), part of the ring assembly, outside the verified functions; orientation is listed as not decided in the C05 claim",
  "C05-3": "the change is in snap.matchInnersToPolygons (a trusted leaf: only 'never fewer polygons than given' is assumed of it); orientation of rings is listed as not decided in the C05 claim",
- "C15-3": "the change is inside tms20.IsLatLon, which the C15 check trusts (EPSG table / CRS interface / string functions are outside the verified subset); stated in the C15 level note",
  "C08-2": "the change drops the holes of a polygon as soon as one level has collapsed; which rings end up in a level's list is decided by the ring assembly (trusted leaves, no functional specification of the per-level ring lists); the C08 claim covers the keys and the id <-> level mapping only and says so",
 }
 claimed = {c["property_id"] for c in json.load(open("/verif/MANIFEST.json"))["checks"]}
